@@ -157,10 +157,26 @@ class AWSElastiCacheHashClient(HashClient):
 
         May useful on error handling during cluster scale down or scale up
         """
+        # Ask first: if the endpoint cannot be reached the current nodes stay.
+        nodes = self._get_nodes_list()
+
         old_clients = self.clients.copy()
         self.clients.clear()
 
-        for server in self._get_nodes_list():
+        # Rotation membership lives in the hasher and in the failure
+        # bookkeeping, not in self.clients: forget the old nodes there too,
+        # otherwise keys keep being routed to (or skipped for) nodes that are
+        # no longer advertised.
+        for key in old_clients:
+            try:
+                self.hasher.remove_node(key)
+            except ValueError:
+                # already taken out of rotation as a dead server
+                pass
+        self._failed_clients.clear()
+        self._dead_clients.clear()
+
+        for server in nodes:
             self.add_server(normalize_server_spec(server))
 
         for client in old_clients.values():
